@@ -146,7 +146,8 @@ def build(source, defs, variant='plain', header='shipped', std='c++17', extra=No
     p = subprocess.run(cmd, stdout=subprocess.PIPE, stderr=subprocess.STDOUT, text=True)
     if p.returncode != 0:
         if os.path.exists(tmp): os.unlink(tmp)
-        raise BuildFailed(' '.join(cmd) + '\n' + p.stdout[-6000:])
+        errs = [l for l in p.stdout.splitlines() if ' error: ' in l][:6]
+        raise BuildFailed(' '.join(cmd) + '\n' + '\n'.join(errs) + '\n...\n' + p.stdout[-5000:])
     os.replace(tmp, out)
     return out
 
